@@ -2,9 +2,11 @@
 package main
 
 import (
+	"os"
 	"time"
 
 	"github.com/superfly/litefs/verifharness/core"
+	"github.com/superfly/litefs/verifharness/multidb"
 	"github.com/superfly/litefs/verifharness/repl"
 	"github.com/superfly/litefs/verifharness/t3"
 )
@@ -13,13 +15,22 @@ func main() {
 	t3.MaybeChild()
 	args := core.ParseArgs()
 	rep := core.NewReport("C01", "model_checking", args)
-	rep.Rule = "control scripts (promote, demote, commit, drop, block, unblock, restart, retention sweep) of every distinct final state of Replication.tla executed on a real 3-node cluster (real stores, real h2c HTTP, goroutines free-running); a case = (script, concretisation); non-trivial = at least one position change was observed on a non-primary node"
-	rep.Assumptions = []string{"kernel page cache simulated from the Invalidator contract", "3 nodes, one database, 2 model pages mapped onto real pages that straddle checksum blocks", "CRC64 collisions ignored"}
+	rep.Rule = "control scripts (promote, demote, commit, drop, block, unblock, restart, retention sweep) of every distinct final state of Replication.tla executed on a real 3-node cluster (real stores, real h2c HTTP, goroutines free-running), plus the control scripts (orphan database on a replica, commit / drop per database, block, unblock, restart of a replica or of the primary, retention sweep per database) of MultiDB.tla executed on a cluster with three databases, a filtered and an unfiltered replica; a case = (script, concretisation); non-trivial = at least one position change was observed on a non-primary node"
+	rep.Assumptions = []string{"kernel page cache simulated from the Invalidator contract", "3 nodes; Replication.tla stages: one database, 2 model pages mapped onto real pages that straddle checksum blocks", "CRC64 collisions ignored"}
 	defer core.Cleanup()
-	repl.Main(rep, args, map[string]bool{"C01": true}, []repl.Stage{
+	stages := []repl.Stage{
 		{Name: "repl-3n-2tx-2faults", Cfg: "MC_Repl_quick.cfg", Timeout: 10 * time.Minute, MaxKeep: core.Pick(args, 60, 400)},
 		{Name: "repl-liveness-2n-3tx-2faults", Cfg: "MC_Repl_live.cfg", Timeout: 10 * time.Minute, Live: true},
-	})
-	t3.Stage(rep, args, map[string]bool{"C01": true})
+	}
+	only := os.Getenv("VERIF_C01_ONLY") // development aid: "multidb" runs the multi-database stage alone
+	if only == "multidb" {
+		stages = nil
+	}
+	repl.Main(rep, args, map[string]bool{"C01": true}, stages)
+	// several databases on one cluster + the replica-side database filter (MultiDB.tla)
+	multidb.Stage(rep, args)
+	if only == "" {
+		t3.Stage(rep, args, map[string]bool{"C01": true})
+	}
 	rep.Finish()
 }
